@@ -61,9 +61,18 @@ def main():
     if chk.thorough:
         cfgs += [("MC_RpycServe_2bg%s.cfg" % h, "exhaustive: 2 clients + background serving thread"),
                  ("MC_RpycServe_3%s.cfg" % h, "exhaustive: 3 clients")]
+    if h:
+        # serve_threaded(): threads that only serve in a blocking loop (specified for the repaired serve())
+        cfgs += [("MC_RpycServe_2p_h.cfg", "exhaustive: 2 clients + 1 thread that only serves (serve_threaded's loop)")]
+        if chk.thorough:
+            cfgs += [("MC_RpycServe_1pp_h.cfg", "exhaustive: 1 client (2 requests) + 2 serving-only threads"),
+                     ("MC_RpycServe_2pp_h.cfg", "exhaustive: 2 clients + 2 serving-only threads")]
     model_check(chk, cfgs)
     # spec -> code
-    for cfgname, mp in ([("2s", 1500), ("1bg", 1500)] if not chk.thorough else [("2", 12000), ("1bg", 6000), ("2bg", 6000)]):
+    gplan = [("2s", 1500), ("1bg", 1500)] if not chk.thorough else [("2", 12000), ("1bg", 6000), ("2bg", 6000)]
+    if h:
+        gplan += [("2p", 1200 if not chk.thorough else 8000)]
+    for cfgname, mp in gplan:
         np_, ne, tot = sc.replay_graph(chk, cfgname, mp, problem)
         chk.cov["graph_%s" % cfgname] = {"paths": np_, "edges_covered": ne, "edges_total": tot}
     # code -> spec
@@ -71,13 +80,16 @@ def main():
     if chk.thorough:
         plan = [("2", 500, 6000, 3, False), ("2bg", 500, 4000, 2, False), ("3", 400, 4000, 2, False),
                 ("3bg", 400, 1000, 1, False), ("2", 250, 0, 0, True), ("3bg", 250, 0, 0, True)]
+    if h:
+        plan += [("2p", 100, 300, 2, False)] if not chk.thorough else [("2p", 400, 3000, 2, False), ("1pp", 300, 2000, 2, False),
+                                                                          ("2pp", 300, 1000, 1, False)]
     for cfgname, nr, nd, bound, lines in plan:
         traces = sc.explore(chk, cfgname, nr, nd, bound, lines, on_result)
         r = sc.validate(chk, cfgname, [norm(t) for t in traces if not lines])
         if r and r[0] and r[0] not in ("OnlyKnownStalls",):
             problem("trace-invariant:" + r[0], "an implementation trace reaches a state violating %s" % r[0],
                     {"mode": "trace", "config": cfgname, "tlc": r[1].stdout[-1500:]})
-    for cfgname in (("2", "2bg", "2x", "2bgx") if not chk.thorough else ("2", "2bg", "2x", "2bgx", "3", "3bg")):
+    for cfgname in (("2", "2bg", "2x", "2bgx") if not chk.thorough else ("2", "2bg", "2x", "2bgx", "3", "3bg")) + (("2p",) if h else ()):
         sc.explore_line_preemptions(chk, cfgname, on_result)
     # replies that carry references: the dispatching thread makes a round trip of its own inside the dispatch (RpycServeNested)
     if sc.handoff_repaired():
